@@ -26,6 +26,8 @@ val mul : nat -> nat -> nat
 
 val sub : nat -> nat -> nat
 
+val eqb : bool -> bool -> bool
+
 module Nat :
  sig
   val sub : nat -> nat -> nat
@@ -184,6 +186,8 @@ val nth_error : 'a1 list -> nat -> 'a1 option
 
 val rev : 'a1 list -> 'a1 list
 
+val rev_append : 'a1 list -> 'a1 list -> 'a1 list
+
 val map : ('a1 -> 'a2) -> 'a1 list -> 'a2 list
 
 val flat_map : ('a1 -> 'a2 list) -> 'a1 list -> 'a2 list
@@ -197,6 +201,8 @@ val forallb : ('a1 -> bool) -> 'a1 list -> bool
 val filter : ('a1 -> bool) -> 'a1 list -> 'a1 list
 
 val find : ('a1 -> bool) -> 'a1 list -> 'a1 option
+
+val combine : 'a1 list -> 'a2 list -> ('a1 * 'a2) list
 
 val firstn : nat -> 'a1 list -> 'a1 list
 
@@ -393,6 +399,16 @@ val g_TunnelPassword : guard list
 val g_UserPassword : guard list
 
 val g_VendorSpecific : guard list
+
+val k_dictionary_AttributeOctets : z
+
+val k_dictionary_AttributeString : z
+
+val g_dictionary_Parser_parseAttribute : guard list
+
+val g_dictionary_Parser_parseVendor : guard list
+
+val t_parser_types : (string * z) list
 
 type avp = { atype : z; aval : bytes }
 
@@ -609,6 +625,172 @@ val xstep :
 val xrun :
   (bytes -> bytes) -> z -> z -> bool -> packet -> xstate -> xevent list ->
   xstate
+
+type str = bytes
+
+val s2b : string -> str
+
+type attr = { a_name : str; a_oid : z list; a_type : z; a_size : z option;
+              a_encrypt : z option; a_has_tag : bool; a_concat : bool }
+
+type value = { v_attr : str; v_name : str; v_number : z }
+
+type vendor = { vn_name : str; vn_number : z; vn_format : (z * z) option;
+                vn_attrs : attr list; vn_values : value list }
+
+type dict = { d_attrs : attr list; d_values : value list;
+              d_vendors : vendor list }
+
+val empty_dict : dict
+
+val pE_oid : n
+
+val pE_type : n
+
+val pE_dupflag : n
+
+val pE_enctype : n
+
+val pE_flag : n
+
+val pE_dupattr : n
+
+val pE_valnum : n
+
+val pE_vendnum : n
+
+val pE_vendfmt : n
+
+val pE_dupvendor : n
+
+val pE_nested : n
+
+val pE_unkvendor : n
+
+val pE_unmatched : n
+
+val pE_badend : n
+
+val pE_incl_in_block : n
+
+val pE_open : n
+
+val pE_recursive : n
+
+val pE_unkline : n
+
+val pE_unclosed : n
+
+val pE_scan : n
+
+type perr =
+| ParseErr of n * str * nat
+| PlainErr of n
+
+type 'a pres =
+| POk of 'a
+| PFail of perr
+| PFuel
+
+val frev : 'a1 list -> 'a1 list
+
+val is_space : n -> bool
+
+val fields_acc : n list -> bytes -> str list
+
+val fields : bytes -> str list
+
+val drop_cr : bytes -> bytes
+
+val lines_acc : n list -> bytes -> bytes list
+
+val scan_lines : bytes -> bytes list
+
+val max_token : n
+
+val strip_comment : bytes -> bytes
+
+val digit_val : n -> z option
+
+val digits_val : z -> z -> bytes -> z option
+
+val parse_uint32 : z -> bytes -> z option
+
+val int32_body : bool -> bytes -> z option
+
+val parse_int32 : bytes -> z option
+
+val parse_oid_aux : bool -> z list -> bytes -> z list option
+
+val parse_oid : bytes -> z list
+
+val lower : n -> n
+
+val equal_fold : bytes -> bytes -> bool
+
+val lookup_type : (string * z) list -> bytes -> z option
+
+val split_on : n -> n list -> bytes -> bytes list
+
+val has_prefix : bytes -> bytes -> bool
+
+val apply_flags : bytes list -> attr -> attr res
+
+val parse_attribute : bytes -> bytes -> bytes -> bytes option -> attr res
+
+val parse_value : bytes -> bytes -> bytes -> value res
+
+val parse_vendor : bytes -> bytes -> bytes option -> vendor res
+
+val oid_eqb : z list -> z list -> bool
+
+val attr_by_name : attr list -> str -> attr option
+
+val vendor_index_by_name : vendor list -> str -> nat -> nat option
+
+val vendor_by_name_or_number : vendor list -> str -> z -> bool
+
+val opt_z_eqb : z option -> z option -> bool
+
+val attr_equals : attr -> attr -> bool
+
+val upd_vendor : dict -> nat -> (vendor -> vendor) -> dict
+
+type line_act =
+| LSkip
+| LAttr of bytes * bytes * bytes * bytes option
+| LValue of bytes * bytes * bytes
+| LVendor of bytes * bytes * bytes option
+| LBegin of bytes
+| LEnd of bytes
+| LInclude of bytes
+| LUnknown
+
+val classify_line : bytes -> line_act
+
+type ioev =
+| EvOpen of str
+| EvClose of str
+| EvReclose of str
+
+val apply_simple :
+  bool -> dict -> nat option -> line_act -> (dict * nat option) res
+
+val too_long : bytes -> bool
+
+type recur_t =
+  str list -> str -> bytes -> dict -> ioev list -> dict pres * ioev list
+
+val parse_lines :
+  bool -> (str -> (str * bytes) option) -> recur_t -> str list -> str ->
+  bytes list -> nat -> nat option -> dict -> ioev list -> dict pres * ioev
+  list
+
+val parse_file : bool -> (str -> (str * bytes) option) -> nat -> recur_t
+
+val parse_root :
+  bool -> (str -> (str * bytes) option) -> nat -> str -> bytes -> dict
+  pres * ioev list
 
 type key = n * n
 
@@ -986,8 +1168,6 @@ type tok =
 | TI of z
 | TB of bytes
 
-val s2b : string -> bytes
-
 val name_is : bytes -> string -> bool
 
 val t_res : 'a1 res -> ('a1 -> tok list) -> tok list
@@ -1069,5 +1249,23 @@ val dispatch_c06 : bytes -> bytes list -> z list -> tok list option
 val take_xevents : z list -> bytes list -> xevent list * bytes list
 
 val dispatch_c08 : bytes -> bytes list -> z list -> tok list option
+
+val t_optz : z option -> tok list
+
+val t_attr : attr -> tok list
+
+val t_value : value -> tok list
+
+val t_vendor : vendor -> tok list
+
+val t_dict : dict -> tok list
+
+val t_pres : dict pres -> tok list
+
+val t_trace : ioev list -> tok list
+
+val opener_of : bytes list -> bytes -> (bytes * bytes) option
+
+val dispatch_dict : bytes -> bytes list -> z list -> tok list option
 
 val dispatch : bytes -> bytes list -> z list -> tok list
